@@ -75,13 +75,18 @@ def record(cs, emd, cvl, sel, vectors=None):
     if vectors is not None:
         sv, chv = vectors
     else:
-        sv = call(emd.cycles.get_subset_vector, np.array(sel))
+        # the selection is a truth vector whatever carries it: bool, 0/1 integers or 0./1. floats (e.g. a column of
+        # get_matching_cycles(..., ret_separate=True)) in turn
+        carrier = (bool, np.int64, float)[(len(cvl) + sum(sel) + len(sel)) % 3]
+        sv = call(emd.cycles.get_subset_vector, np.array(sel).astype(carrier))
         chv = call(emd.cycles.get_chain_vector, sv) if not isinstance(sv, str) else 'raise'
     r = {'cv': cvl, 'sel': [int(x) for x in sel]}
     if isinstance(sv, str) or isinstance(chv, str):
         r.update(subset_vect=[-99], chain_vect=[-99])
         sv = np.array([-1] * K)
         chv = np.array([], dtype=int)
+    elif not (np.issubdtype(np.asarray(sv).dtype, np.integer) and np.issubdtype(np.asarray(chv).dtype, np.integer)):
+        r.update(subset_vect=[-98], chain_vect=[-98])          # index vectors must hold integers (they are used as indices)
     else:
         r['subset_vect'] = [int(x) for x in sv]
         r['chain_vect'] = [int(x) for x in chv]
